@@ -50,6 +50,13 @@ WiringPoints ==
           b \in {U, R(T_HANDLE, 2, 0, ""), R(T_FILE, 0, 2, ""), R(T_HANDLE, 1, 0, ""), R(T_PARENT, 0, 0, "")},
           c \in {U, R(T_PIPE, 0, 0, ""), R(T_HANDLE, 1, 0, ""), R(T_FILE, 0, 1, ""), R(T_HANDLE, 2, 0, ""), R(T_STDOUT, 0, 0, "")}}
 
+\* nonblocking mode (C17) is a property of the parent's ends of the stream pipes - all of them, whatever else is redirected
+\* or defaulted by a shorthand - and never of the exit handle or of anything the child gets
+NbPoints ==
+  {Opt(<<a, b, c>>, sh, -1, FALSE, TRUE) @@ [nb |-> TRUE] :
+     a \in {U, R(T_PIPE, 0, 0, ""), R(T_DISCARD, 0, 0, "")}, b \in {U, R(T_PIPE, 0, 0, ""), R(T_PARENT, 0, 0, "")}, c \in {U, R(T_PIPE, 0, 0, ""), R(T_STDOUT, 0, 0, "")},
+     sh \in {NoSh, [NoSh EXCEPT !.parent = TRUE], [NoSh EXCEPT !.discard = TRUE], [NoSh EXCEPT !.file = FFD], [NoSh EXCEPT !.path = PATHS]}}
+
 (* ---- family "env" (C03 C12): argv, environment, working directory, program resolution, signal state ---- *)
 EnvBase == [argvx |-> <<>>, envb |-> 0, envx |-> <<"none">>, penv |-> <<"P=1">>, wd |-> "", prog |-> "/bin/c",
             cwd |-> "/w", cwdlen |-> 0, mask |-> <<>>, disp |-> <<>>, limit |-> 32]
@@ -102,7 +109,7 @@ TableRow(pt) ==
   <<"T", pt.s, r.t, B(r.h # 0), B(r.f # 0), B(r.p # ""), B(sh.parent), B(sh.discard), B(sh.file # 0), B(sh.path # ""),
     IF RejectStream(r, pt.s, sh) THEN 1 ELSE IF r.t > T_PATH THEN 2 ELSE 0, Effective(r, pt.s, sh).t>>
 
-Points == IF Family = "tables" THEN TablePoints ELSE IF Family = "options" THEN OptionPoints ELSE IF Family = "wiring" THEN WiringPoints
+Points == IF Family = "tables" THEN TablePoints ELSE IF Family = "options" THEN OptionPoints ELSE IF Family = "wiring" THEN WiringPoints \cup NbPoints
           ELSE IF Family = "faultscen" THEN FaultScenPoints ELSE IF Family = "env2" THEN Env2Points ELSE EnvPoints
 X == IF "x" \in DOMAIN o THEN o.x ELSE EnvBase
 
@@ -134,7 +141,8 @@ StartRec == [e |-> "call", fn |-> "start", h |-> 1, term |-> 2, argv |-> IF o.ar
                                            @@ (IF X.wd = "" THEN <<>> ELSE [wd |-> X.wd]) ELSE <<>>) @@
                    [rin |-> RJ(o.rd[1]), rout |-> RJ(o.rd[2]), rerr |-> RJ(o.rd[3]),
                     parent |-> IF o.sh.parent THEN 1 ELSE 0, discard |-> IF o.sh.discard THEN 1 ELSE 0,
-                    file |-> o.sh.file, path |-> o.sh.path, input |-> o.input, fork |-> IF o.fork THEN 1 ELSE 0]]
+                    file |-> o.sh.file, path |-> o.sh.path, input |-> o.input, fork |-> IF o.fork THEN 1 ELSE 0,
+                    nb |-> IF "nb" \in DOMAIN o /\ o.nb THEN 1 ELSE 0]]
 BaseFds == Cardinality({s \in 1..3 : k.std[s]}) + Len(Extras)
 
 Expected ==
@@ -164,6 +172,8 @@ Expected ==
                        ELSE [cprog |-> ExpProg, ccwd |-> IF X.wd = "" THEN X.cwd ELSE X.wd, pcwd |-> X.cwd])
        [] v.v = "accept" -> common @@ [r |-> 1, cw |-> ChildWiring(v.eff, kk), cx |-> ChildExtra(v.eff),
                                       pp |-> ParentEnds(v.eff, kk.hasInput), cnb |-> 0, cexec |-> 1,
+                                      pnb |-> LET pe == ParentEnds(v.eff, kk.hasInput) IN
+                                              [q \in 1..Len(pe) |-> IF q < Len(pe) /\ "nb" \in DOMAIN o /\ o.nb THEN 1 ELSE 0],
                                       nfd |-> BaseFds + Len(ParentEnds(v.eff, kk.hasInput)), left |-> 0]
 
 \* second half of an env2 script: the caller changes its own process, then starts a second child with the same options
